@@ -29,7 +29,7 @@ class Experiment:
         self.datatype = datatype
         self.inst = {}
         for i in range(instruments):
-            fl = ['FL1', 'FL2', 'FL3'] if i == 0 else ['GFP-A', 'RFP-A']
+            fl = ['FL1', 'FL2', 'FL3'] if i == 0 else ['GFP-A', 'PE-Texas Red-A']      # channel names may contain blanks
             self.inst['FC%03d' % (i + 1)] = {'fsc': 'FSC' if i == 0 else 'FSC-A', 'ssc': 'SSC' if i == 0 else 'SSC-A', 'fl': fl,
                                             'time': 'TIME' if i == 0 else 'Time'}
         if wide:
